@@ -158,6 +158,13 @@ def call_ext(I: Any, name: str, args: List[Term], kwargs: Dict[str, Term], st: A
     if name == "builtins.filter":
         return ("filterobj", lambda_norm(I, args[0], args[1], st, ctx, node), args[1])
     if name == "builtins.sum":
+        if len(args) == 1:
+            its = I.iter_items(args[0], st, ctx, node)
+            if its is not None and 1 <= len(its) <= 16 and all(is_int_term(x) for x in its):
+                acc = its[0]
+                for x in its[1:]:
+                    acc = arith("add", acc, x)
+                return acc
         if len(args) == 1 and args[0][0] == "mapobj" and len(args[0]) == 4 and args[0][3] == "list":
             # sum(f(x) for x in xs) == sum(map(f, xs)): one canonical form
             return app("sum", [("map", args[0][1], args[0][2])])
@@ -183,6 +190,9 @@ def call_ext(I: Any, name: str, args: List[Term], kwargs: Dict[str, Term], st: A
         from .interp import HeapObj
         if not args:
             return st.alloc(HeapObj("set", None, {}, []))
+        if args[0][0] == "condlist" and len({v for _, v in args[0][1]}) == len(args[0][1]):
+            # {x_i | c_i}: a set given by one membership condition per (distinct) candidate
+            return ("condset", args[0][1])
         items = I.iter_items(args[0], st, ctx, node)
         if items is not None:
             uniq: List[Term] = []
@@ -304,6 +314,16 @@ def call_ext(I: Any, name: str, args: List[Term], kwargs: Dict[str, Term], st: A
             for it in (items if len(args) == 3 else items[1:]):
                 acc = I.call(args[0], [acc, it], {}, st, ctx, node)
             return acc
+        return I.external_call(name, args, kwargs, st, ctx, node, awaited, opaque=True)
+    if name == "itertools.compress" and len(args) == 2 and not kwargs:
+        data, sels = I.iter_items(args[0], st, ctx, node), I.iter_items(args[1], st, ctx, node)
+        if data is not None and sels is not None:
+            pairs_c = [(I.truth(sv, st), dv) for dv, sv in zip(data, sels)]
+            pairs_c = [(cn, dv) for cn, dv in pairs_c if not (is_c(cn) and not cn[1])]
+            if all(is_c(cn) for cn, _ in pairs_c):
+                from .interp import HeapObj
+                return st.alloc(HeapObj("list", None, {}, [dv for _, dv in pairs_c]))
+            return ("condlist", tuple(pairs_c))
         return I.external_call(name, args, kwargs, st, ctx, node, awaited, opaque=True)
     if name == "builtins.next" and 1 <= len(args) <= 2 and not kwargs:
         src = args[0]
